@@ -4,7 +4,7 @@
    vertex sets (all compatible): the result is the union, each operand a sub-complex of it with its
    names and faces; one single-name perturbation is rejected with ValueError. *)
 From Coq Require Import String ZArith Bool Arith List.
-From SV Require Import Names Rep Complex Homology Filtration Gen World Small Sweeps.
+From SV Require Import Names Rep Complex Homology Filtration Gen World Small Sweeps NamesFacts RepInv Shapes ComposeProofs.
 
 Theorem C16_union_upto3_partial : forall c1 c2, In c1 complexes3 -> In c2 complexes3 -> chk_compose c1 c2 = true.
 Proof. exact compose_upto3. Qed.
@@ -13,3 +13,23 @@ Print Assumptions C16_union_upto3_partial.
 Theorem C16_incompatible_rejected_example : chk_compose_incompatible = true.
 Proof. exact sweep_compose_incompatible. Qed.
 Print Assumptions C16_incompatible_rejected_example.
+
+(* EVERY PAIR OF COMPLEXES: when a.compose(c) succeeds the result is the union -- it contains
+   exactly the simplices of a and of c; those of a have the faces they have in a, the others the
+   faces they have in c (and it satisfies the shape invariant) *)
+Theorem C16_result_is_the_union :
+  forall hp a c uid hp' d, pinv a -> pinv c -> compose hp a c None uid = (hp', d, Ok tt) ->
+  sinv d /\
+  (forall s, containsSimplex d s = containsSimplex a s || containsSimplex c s) /\
+  (forall s, containsSimplex a s = true -> forall t, In t (faces d s) <-> In t (faces a s)) /\
+  (forall s, containsSimplex c s = true -> containsSimplex a s = false -> forall t, In t (faces d s) <-> In t (faces c s)).
+Proof. exact compose_is_union. Qed.
+Print Assumptions C16_result_is_the_union.
+(* ... and it succeeds only on compatible operands: the basis each simplex s of c has in c, looked up
+   in a, is the basis of s itself when a has the name s, and of no simplex of a otherwise *)
+Theorem C16_accepts_only_compatible :
+  forall hp a c uid hp' d, pinv c -> compose hp a c None uid = (hp', d, Ok tt) ->
+  forall s, containsSimplex c s = true ->
+  c_simplexWithBasis a (basisOf c s) false = Ok (if containsSimplex a s then Some s else None).
+Proof. exact compose_accepts_only_compatible. Qed.
+Print Assumptions C16_accepts_only_compatible.
